@@ -22,6 +22,7 @@ package snapstate_test
 //	w.pruneChanges()                     drop ready changes from the state (what the overlord's periodic Prune does)
 //	w.view(name)                         snapshot of recorded state + world for one snap (C10 oracle input)
 //	w.consistency()                      cross-check of snapstate.All against the world model (C11 oracle)
+//	w.aliasLeftovers()                   aliases whose snap is not installed (observation only)
 //	w.mounted / w.current / w.aliases / w.data   the model itself
 //	worldGenReq(t, snap, kinds)          rapid generator of one request (flags, channel, cohort, picks)
 //
@@ -57,6 +58,7 @@ import (
 	"github.com/snapcore/snapd/overlord/state"
 	"github.com/snapcore/snapd/release"
 	"github.com/snapcore/snapd/snap"
+	"github.com/snapcore/snapd/verifkit"
 )
 
 // ---------------------------------------------------------------- gocheck bridge
@@ -516,12 +518,6 @@ func (w *world) consistency() []string {
 	for n := range revCfg {
 		names[n] = true
 	}
-	aliasesOf := map[string][]string{}
-	for al, target := range w.aliases {
-		n := worldAliasSnap(target)
-		names[n] = true
-		aliasesOf[n] = append(aliasesOf[n], al)
-	}
 	delete(names, "core")
 	sorted := make([]string, 0, len(names))
 	for n := range names {
@@ -548,10 +544,6 @@ func (w *world) consistency() []string {
 			}
 			if rc, ok := revCfg[n]; ok {
 				problems = append(problems, fmt.Sprintf("%s: not recorded as installed but per-revision configuration %v is left behind", n, rc))
-			}
-			if len(aliasesOf[n]) > 0 {
-				sort.Strings(aliasesOf[n])
-				problems = append(problems, fmt.Sprintf("%s: not recorded as installed but aliases %v are left behind", n, aliasesOf[n]))
 			}
 			continue
 		}
@@ -584,6 +576,23 @@ func (w *world) consistency() []string {
 		}
 	}
 	return problems
+}
+
+// aliasLeftovers lists aliases on the system whose snap is not recorded as installed.
+// The C11 statement does not mention aliases, so this is an observation, not part
+// of consistency().
+func (w *world) aliasLeftovers() []string {
+	w.state.Lock()
+	all, _ := snapstate.All(w.state)
+	w.state.Unlock()
+	var out []string
+	for al, target := range w.aliases {
+		if _, ok := all[worldAliasSnap(target)]; !ok {
+			out = append(out, al+"->"+target)
+		}
+	}
+	sort.Strings(out)
+	return out
 }
 
 // ---------------------------------------------------------------- issuing requests
@@ -900,15 +909,9 @@ func worldContains(xs []int, x int) bool {
 	return false
 }
 
-// worldAssumeKnown: fingerprints the lead has not decided on yet can be treated
-// as known for mutant runs (VERIF_<ID>_ASSUME_KNOWN=F-..,F-..); never set by ./check.
+// worldAssumeKnown: only KNOWN_FINDINGS.jsonl decides what is known (no env switch).
 func worldAssumeKnown(id, fp string) bool {
-	for _, f := range strings.Split(os.Getenv("VERIF_"+id+"_ASSUME_KNOWN"), ",") {
-		if f == fp {
-			return true
-		}
-	}
-	return false
+	return verifkit.IsKnown(id, fp)
 }
 
 // ---------------------------------------------------------------- request generator (shared)
